@@ -41,13 +41,57 @@ def trains(case):
     return out
 
 
+def prime(ctx, case, sts, fns, pair_only=()):
+    """case["prime"]: before the trains are judged, the caller has already used them
+    in other (in-contract) calls - together with a train from a LONGER recording
+    ("wider": default reconciliation then works on common edges), or with a third
+    train of the same recording ("same").  The results of these calls are not judged
+    here; what matters is that the objects come out of them unchanged, so that the
+    judged calls see exactly the trains the case describes."""
+    how = case.get("prime")
+    if not how:
+        return
+    import pyspike
+    t0, t1 = float(case["t0"]), float(case["t1"])
+    L = t1 - t0
+    if how == "wider":
+        other = pyspike.SpikeTrain(np.array([t0 - 0.5 * L, t0 + 0.5 * L, t1 + 0.5 * L]),
+                                   [t0 - L, t1 + L])
+    else:
+        other = pyspike.SpikeTrain(np.array([t0 + 0.25 * L, t0 + 0.5 * L]), [t0, t1])
+    for fn in fns:
+        ctx.call("priming_call", fn, sts[0], other)
+        ctx.call("priming_call", fn, other, sts[-1])
+        ctx.call("priming_call", fn, list(sts) + [other])
+    for fn in pair_only:
+        ctx.call("priming_call", fn, sts[0], other)
+        ctx.call("priming_call", fn, other, sts[-1])
+    ctx.notes["primed:" + how] += 1
+
+
 def fr_trains(case):
     return ([[Fr(t) for t in tr] for tr in case["trains"]],
             Fr(case["t0"]), Fr(case["t1"]))
 
 
 def tol_of(case):
-    return TOL_FLOAT if case.get("domain") == "float" else TOL_DYADIC
+    """Dyadic domain: every intermediate is exact or nearly so -> 1e-12.  Float
+    domain: 1e-9, widened by the conditioning of the input: the kernels form
+    auxiliary spike positions such as 2*t[0]-t[1], which round by up to one ulp of
+    the time scale, and an inter-spike (or spike-to-edge) interval g inherits the
+    relative error ulp(scale)/g.  The statement is about real numbers; a result
+    that differs from the exact one by a few such roundings is not a violation."""
+    if case.get("domain") != "float":
+        return TOL_DYADIC
+    t0, t1 = float(case["t0"]), float(case["t1"])
+    scale = max(abs(t0), abs(t1))
+    gap = t1 - t0
+    for tr in case.get("trains", []):
+        pts = [t0] + [float(t) for t in tr] + [t1]
+        for a, b in zip(pts, pts[1:]):
+            if 0 < b - a < gap:
+                gap = b - a
+    return max(TOL_FLOAT, 32 * 2.220446049250313e-16 * scale / gap)
 
 
 def close(a, b, tol):
